@@ -398,6 +398,11 @@ def mon_c08(c, r):
             return ('%s: %d functions (%s) started after the interrupt signal was sent by the user future of function %s '
                     'during a poll of the call (strategy %s, include=%s, bound %d)'
                     % (SELF_SIGNAL_KEY, len(after), ' '.join(map(str, after)), r.cfg.get('sig'), strat, r.cfg.get('incl', '1') == '1', b))
+    if r.kind == 'call' and r.case.family.startswith('share') and r.prefix not in ('', 'r0.') \
+            and r.cfg.get('strat') in ('fin', 'pn:0') and r.starts():
+        # the InterruptibilityState the call runs on was interrupted during the first call of the history
+        return ('functions %s started by a call on an InterruptibilityState that had already been interrupted (strategy %s)'
+                % (r.starts(), r.cfg.get('strat')))
     if r.kind == 'call' and ('i' in evs or r.sig_at is not None):
         # "functions already started are always completed ... and the call returns"
         stuck = _c04_run(c, r)
